@@ -87,6 +87,15 @@ CLAIMS = {
          'Partial: "the faulting instruction performs no base-register write-back" and the abort position inside multi-word '
          'transfers belong to the load/store instruction theorems (C02/C03); LR_abt/SPSR_abt are the C11 entry theorems composed by '
          'C11_dispatch.'),
+ 'C15': ('TranslateAddressV for the short-descriptor format (stage 1, not Hyp mode) proved equal to an independent specification for '
+         'every table content, TTBCR.N/PD0/PD1, TTBR0/1, DACR, SCTLR.{M,AFE,EE}, FCSE PID, PRRR/NMRR, virtual address, direction, '
+         'privilege and alignment: TTBR selection, first/second-level descriptor addresses, sections, supersections (40-bit), large '
+         'and small pages, the physical address, AP/XN/PXN/nG/NS/domain/level, memory attributes by TEX remap; translation, access-flag, '
+         'domain, permission and alignment faults with DFAR = MVA and DFSR (WnR, FS with level, domain where valid) and nothing else '
+         'changed; the MMU-off flat map; FCSE.',
+         'Partial: the long-descriptor (LPAE) walk, Hyp mode and stage 2 (virtualization), hardware access-flag update (SCTLR.HA=1) '
+         'and SCTLR.TRE=0 are not covered by theorems (regenerated model and correspondence only; TRE=0 is a known finding: the '
+         'emulator reaches a NotImplementedError stub).'),
  'C16': ('lookup, read, write, error cases, histories (induction over operation lists), shape invariant, byte frame and '
          'store/load proved for every device list, address, size and value.',
          'Device payloads are RAM only; bytearray/struct semantics are the Lib/Machine.v model.'),
